@@ -6,6 +6,7 @@
 import NutsProofs.Lemmas.C14Vis
 import NutsModel.Facts.C14
 import NutsProofs.Props.C14
+import NutsProofs.Props.C14Api
 namespace Nuts.C14.Props
 open Nuts.C14
 
@@ -64,6 +65,22 @@ theorem restart_never_calls_parked_job (c : Cfg) (σ : St) (order : List Nat) (s
     (restart c σ order).shelf s r = some j ∧ ∃ new, (restart c σ order).ledger = new ++ σ.ledger :=
   ⟨restart_keeps_parked c σ order s r j hj hctx, (restart_dstep c σ order).grows⟩
 
+/-- **rest_row_stays_until_completed** (end to end: notifier shelf -> REST): a failed event the operator sees under subscriber `s`
+    in the `ListEvents` answer is, after ANY further history (restarts, crashes, faults included), still shown under that subscriber
+    whenever ListEvents answers - unless a completion of exactly that (subscriber, transaction) was recorded in between -/
+theorem rest_row_stays_until_completed (c : Cfg) (hthr : c.failedThreshold ≤ c.maxRetries + 1) (names : Nat → String) (σ : St) (ops : List Op)
+    (s : Nat) (e : ApiEvent) (he : e ∈ failedRows c σ s) (hr : e.ref < c.nRefs)
+    (readFail : Nat → Bool) (order : List Nat) (l : List (String × List ApiEvent))
+    (h : listEvents c names (run c σ ops) readFail order = .ok l) (hs : s ∈ order) :
+    (∃ rows e', (names s, rows) ∈ l ∧ e' ∈ rows ∧ e'.ref = e.ref) ∨
+      ∃ new, (run c σ ops).ledger = new ++ σ.ledger ∧ completedIn new s e.ref = true := by
+  obtain ⟨j, hj, ht, _, _, _⟩ := failedRows_sound c σ s e he
+  have hm : e.ref ∈ failedEvents c σ s := (mem_failedEvents_iff c σ s e.ref).mpr ⟨hr, j, hj, ht⟩
+  rcases failed_stays_visible_or_completed c hthr σ ops s e.ref hm with hv | hc
+  · obtain ⟨_, j', hj', _⟩ := (mem_failedEvents_iff c _ s e.ref).mp hv
+    exact .inl ⟨failedRows c (run c σ ops) s, _, listEvents_mem c names _ readFail order l h s hs, failedRows_mem c _ s e.ref j' hv hj', rfl⟩
+  · exact .inr hc
+
 /-! ### non-vacuity -/
 
 /-- subscriber 3 (vcr_vcs) fails every time with the unknown-context error; everybody else completes -/
@@ -75,6 +92,7 @@ def admitOps : List Op := [.add { ref := 0, withPayload := true }, .afterCommit 
 example : 0 ∈ failedEvents (wCfg true fatal3) (run (wCfg true fatal3) init admitOps) 3 := by decide
 example : 0 ∈ failedEvents (wCfg true fatal3) (run (wCfg true fatal3) (run (wCfg true fatal3) init admitOps) [.crash, .restart [0, 1, 2, 3, 4]]) 3 := by
   decide
+example : ({ ref := 0, type := .payload, retries := 21, err := .fatal } : ApiEvent) ∈ failedRows (wCfg true fatal3) (run (wCfg true fatal3) init admitOps) 3 := by decide
 -- the second disjunct is real: a clean-up (Finished from outside) removes the listed job and is on record
 example : 0 ∉ failedEvents (wCfg true fatal3) (run (wCfg true fatal3) (run (wCfg true fatal3) init admitOps) [.finishedExt 3 0 false]) 3 ∧
     completedIn ((run (wCfg true fatal3) (run (wCfg true fatal3) init admitOps) [.finishedExt 3 0 false]).ledger.take 1) 3 0 = true := by decide
